@@ -89,6 +89,7 @@ for d in sorted(glob.glob("/verif/seeded/C*-*"), key=key):
                     rule = ", ".join(rules[:3])
     nn = int(name.split("-")[1])
     rnd = "1" if nn <= 3 else ("2" if nn <= 6 else ("3" if nn <= 9 else "4"))
+    if name.startswith("C17-"): rnd = "4"  # C17 was claimed in round 4; its first seeds were made then
     fl = FIRST_LOOK.get(name, "" if rnd == "1" else "not recorded")
     if det: caught += 1
     else: missed += 1
